@@ -59,6 +59,15 @@ pub fn collect_binders_sig(sig: &syn::Signature) -> BTreeSet<String> {
     for inp in &sig.inputs { if let syn::FnArg::Typed(pt) = inp { Binders(&mut s).visit_pat(&pt.pat); } }
     s
 }
+pub fn collect_binders_pat(p: &syn::Pat, s: &mut BTreeSet<String>) { Binders(s).visit_pat(p); }
+/// a closure whose body ends in `Box::pin(async move { B })` / `async move { B }` returns the future that runs B: the lifted
+/// function is the eager "call and await" of it, so the block is inlined (captures of B are locals of the closure body)
+pub fn inline_tail_async(b: &mut syn::Block, cx: &mut Ctx) {
+    fn strip(e: &Expr) -> &Expr { match e { Expr::Call(c) if c.args.len() == 1 && nospace(&c.func.to_token_stream().to_string()) == "Box::pin" => strip(&c.args[0]), Expr::Paren(p) => strip(&p.expr), other => other } }
+    if let Some(Stmt::Expr(e, None)) = b.stmts.last() {
+        if let Expr::Async(a) = strip(e) { let inner = a.block.stmts.clone(); b.stmts.pop(); b.stmts.extend(inner); cx.fire("A5"); }
+    }
+}
 pub fn collect_binders_block(b: &syn::Block, s: &mut BTreeSet<String>) {
     struct All<'b>(&'b mut BTreeSet<String>);
     impl<'a, 'b> Visit<'a> for All<'b> {
@@ -260,7 +269,12 @@ pub struct Rw<'c> {
     pub fn_name: String,
     pub loops: usize,
     pub self_to_this: bool,
+    pub closures: usize,
+    pub lifted_closures: Vec<LiftedClosure>,
+    pub lift_prefix: String,
 }
+/// a closure literal or async block that is used as a value (rules L1 / A3)
+pub struct LiftedClosure { pub k: usize, pub name: String, pub captures: Vec<String>, pub is_move: bool, pub inputs: Vec<syn::Pat>, pub body: syn::Block, pub is_async_block: bool, pub line: usize }
 fn ident(s: &str) -> syn::Ident { syn::Ident::new(s, Span::call_site()) }
 fn call_last_ident(e: &Expr) -> Option<String> {
     match e {
@@ -291,7 +305,7 @@ fn has_control_escape(e: &Expr) -> bool {
 }
 
 impl<'c> Rw<'c> {
-    pub fn new(cx: &'c mut Ctx, lifted: bool, binders: BTreeSet<String>, fn_name: String) -> Self { Rw { cx, lifted, binders, fn_name, loops: 0, self_to_this: false } }
+    pub fn new(cx: &'c mut Ctx, lifted: bool, binders: BTreeSet<String>, fn_name: String) -> Self { Rw { cx, lifted, binders, lift_prefix: fn_name.replace("::", "__").replace('@', "_"), fn_name, loops: 0, self_to_this: false, closures: 0, lifted_closures: vec![] } }
 
     fn select_to_match(&mut self, m: &syn::Macro) -> Option<Expr> {
         let arms: Arms = match syn::parse2(m.tokens.clone()) { Ok(a) => a, Err(e) => { self.cx.err(format!("outside dialect: select! arms in {}: {}", self.fn_name, e)); return None; } };
@@ -338,7 +352,8 @@ impl<'c> Rw<'c> {
                             return;
                         }
                         let pat: syn::Pat = parse_quote!(#v);
-                        let app: Expr = if key == "Into::into" { parse_quote!(#v.into()) } else if key == "ToOwned::to_owned" { parse_quote!(#v.clone()) } else { parse_quote!(#p(#v)) };
+                        let app: Expr = if key == "Into::into" { parse_quote!(#v.into()) } else if key == "ToOwned::to_owned" { parse_quote!(#v.clone()) }
+                            else if key == "Result::ok" { parse_quote!(match #v { Ok(hx_o) => Some(hx_o), Err(_) => None }) } else { parse_quote!(#p(#v)) };
                         (pat, Some(app))
                     }
                     _ => return,
@@ -467,6 +482,26 @@ impl<'c> VisitMut for Rw<'c> {
         }
         // C1
         self.inline_adapter(e);
+        // L1 / A3: a closure literal or async block used as a value becomes a code object built from what it captures
+        let lift = match e { Expr::Closure(_) => true, Expr::Async(_) => true, _ => false };
+        if lift {
+            let k = self.closures; self.closures += 1;
+            let (caps, is_move, inputs, body, is_async, line) = match e {
+                Expr::Closure(c) => {
+                    let body: syn::Block = match &*c.body { Expr::Block(b) => b.block.clone(), other => parse_quote!({ #other }) };
+                    (captures_of_closure(c, &self.binders), c.capture.is_some(), c.inputs.iter().cloned().collect::<Vec<_>>(), body, false, c.or1_token.span.start().line)
+                }
+                Expr::Async(a) => (captures_of_block(&a.block, &self.binders), a.capture.is_some(), vec![], a.block.clone(), true, a.async_token.span.start().line),
+                _ => unreachable!(),
+            };
+            let name = format!("{}__{}{}", self.lift_prefix, if is_async { "async" } else { "closure" }, k);
+            let ctor = ident(&format!("{}__new", name));
+            let args: Vec<Expr> = caps.iter().map(|c| { let id = ident(if self.self_to_this && c == "self" { "this" } else { c }); if is_move { parse_quote!(#id) } else { parse_quote!(&#id) } }).collect();
+            self.cx.fire(if is_async { "A3" } else { "L1" });
+            self.lifted_closures.push(LiftedClosure { k, name, captures: caps, is_move, inputs, body, is_async_block: is_async, line });
+            *e = parse_quote!(#ctor(#(#args),*));
+            return;
+        }
         // loops: number them in source order and leave a marker for the emitter
         let is_loop = matches!(e, Expr::Loop(_) | Expr::While(_) | Expr::ForLoop(_));
         if is_loop {
@@ -501,7 +536,7 @@ impl<'c> VisitMut for Rw<'c> {
             } }
             if let Expr::Call(c2) = e { if let Expr::Paren(par) = &*c2.func { // (self.join_fn)()
                 let inner = &par.expr; let args = &c2.args; self.cx.fire("P1"); let tail = if args.is_empty() { quote!() } else { quote!(, #args) };
-                *e = parse_quote!(call_boxed(#inner #tail));
+                *e = parse_quote!(call_boxed_mut(&mut #inner #tail));
             } }
         }
         // G1 / A1b on calls
@@ -514,13 +549,19 @@ impl<'c> VisitMut for Rw<'c> {
             } else if self.cx.unit.traced.contains(&n) {
                 push_ghost(e); self.cx.fire("G1");
             }
+            // chain renames: method `b` on the result of method `a`
+            if let Expr::MethodCall(m) = e {
+                let mn = m.method.to_string();
+                let recv_name = match &*m.receiver { Expr::MethodCall(r) => Some(r.method.to_string()), Expr::Call(_) => call_last_ident(&m.receiver), _ => None };
+                if let Some(rn) = recv_name { for (a, b, c) in self.cx.unit.chains.clone() { if a == rn && b == mn { m.method = syn::Ident::new(&c, m.method.span()); if self.cx.unit.traced.contains(&c) { m.args.push(parse_quote!(Tracked(w))); self.cx.fire("G1"); } } } }
+            }
             // method renames of the unit
             if let Expr::MethodCall(m) = e { let mn = m.method.to_string(); for (a, b) in self.cx.unit.methods.clone() { if a == mn { m.method = syn::Ident::new(&b, m.method.span()); } } }
         }
         // A2: await on a future value
         if let Expr::Await(a) = e { let base = &a.base; self.cx.fire("A2"); *e = parse_quote!(#base.await_(Tracked(w))); }
         // closures and async blocks that survive to this point are outside the dialect unless a later rule lifts them
-        if let Expr::Async(_) = e { self.cx.err(format!("outside dialect: async block used as a value in {}", self.fn_name)); }
+
     }
 
     fn visit_pat_mut(&mut self, p: &mut syn::Pat) {
@@ -542,12 +583,20 @@ fn push_ghost(e: &mut Expr) {
 }
 impl<'c> Rw<'c> {
     fn map_expr_path(&mut self, p: &mut syn::Path) {
+        // the eager marker (A1) travels on the last segment: map the path without it, then put it back
+        let marked = p.segments.last().map(|s| s.ident.to_string().ends_with("__hx_eager")).unwrap_or(false);
+        if marked { let l = p.segments.last_mut().unwrap(); let n = l.ident.to_string(); l.ident = syn::Ident::new(n.trim_end_matches("__hx_eager"), l.ident.span()); }
+        self.map_expr_path_inner(p);
+        if marked { let l = p.segments.last_mut().unwrap(); l.ident = syn::Ident::new(&format!("{}__hx_eager", l.ident), l.ident.span()); }
+    }
+    fn map_expr_path_inner(&mut self, p: &mut syn::Path) {
         let key = nospace(&strip_generics(p).to_token_stream().to_string());
         for (a, b) in self.cx.unit.paths.clone() {
             if a == key {
                 match syn::parse_str::<syn::Path>(&b) {
-                    Ok(mut np) => { // keep the turbofish of the last segment
-                        if let (Some(o), Some(n)) = (p.segments.last(), np.segments.last_mut()) { if n.arguments.is_none() { n.arguments = o.arguments.clone(); } }
+                    Ok(mut np) => { // keep the turbofish of every segment (aligned from the end)
+                        let on = p.segments.len(); let nn = np.segments.len();
+                        for i in 0..on.min(nn) { let o = &p.segments[on - 1 - i]; let n = &mut np.segments[nn - 1 - i]; if n.arguments.is_none() { n.arguments = o.arguments.clone(); } }
                         map_path_types(&mut np, self.cx);
                         *p = np; self.cx.fire("N1"); return;
                     }
@@ -560,6 +609,59 @@ impl<'c> Rw<'c> {
     }
 }
 fn strip_generics(p: &syn::Path) -> syn::Path { let mut q = p.clone(); for s in q.segments.iter_mut() { s.arguments = syn::PathArguments::None; } q }
+
+// ------------------------------------------------------------------------------------------
+// scope-aware free variables of a closure / async block (what it captures from the enclosing function)
+// ------------------------------------------------------------------------------------------
+struct Free { bound: Vec<BTreeSet<String>>, free: Vec<String> }
+fn binders_of(p: &syn::Pat) -> BTreeSet<String> { let mut s = BTreeSet::new(); Binders(&mut s).visit_pat(p); s }
+impl Free {
+    fn is_bound(&self, n: &str) -> bool { self.bound.iter().any(|s| s.contains(n)) }
+    fn use_(&mut self, n: String) { if !self.is_bound(&n) && !self.free.contains(&n) { self.free.push(n); } }
+    fn tokens(&mut self, ts: TokenStream) { for t in ts { match t { TokenTree::Ident(i) => { let s = i.to_string(); if s.chars().next().map(|c| c.is_lowercase() || c == '_').unwrap_or(false) { self.use_(s); } } TokenTree::Group(g) => self.tokens(g.stream()), _ => {} } } }
+}
+impl<'a> Visit<'a> for Free {
+    fn visit_expr_path(&mut self, p: &'a syn::ExprPath) { if let Some(i) = p.path.get_ident() { self.use_(i.to_string()); } }
+    fn visit_macro(&mut self, m: &'a syn::Macro) { if !is_dropped_macro(m) { self.tokens(m.tokens.clone()); } }
+    fn visit_expr_struct(&mut self, s: &'a syn::ExprStruct) {
+        for f in &s.fields { self.visit_expr(&f.expr); }
+        if let Some(r) = &s.rest { self.visit_expr(r); }
+    }
+    fn visit_expr_closure(&mut self, c: &'a syn::ExprClosure) {
+        let mut b = BTreeSet::new(); for p in &c.inputs { b.extend(binders_of(p)); }
+        self.bound.push(b); self.visit_expr(&c.body); self.bound.pop();
+    }
+    fn visit_block(&mut self, b: &'a syn::Block) {
+        self.bound.push(BTreeSet::new());
+        for st in &b.stmts {
+            match st {
+                Stmt::Local(l) => { if let Some(i) = &l.init { self.visit_expr(&i.expr); if let Some((_, d)) = &i.diverge { self.visit_expr(d); } }
+                                    let nb = binders_of(&l.pat); self.bound.last_mut().unwrap().extend(nb); }
+                other => self.visit_stmt(other),
+            }
+        }
+        self.bound.pop();
+    }
+    fn visit_arm(&mut self, a: &'a syn::Arm) { self.bound.push(binders_of(&a.pat)); if let Some((_, g)) = &a.guard { self.visit_expr(g); } self.visit_expr(&a.body); self.bound.pop(); }
+    fn visit_expr_if(&mut self, i: &'a syn::ExprIf) {
+        if let Expr::Let(l) = &*i.cond { self.visit_expr(&l.expr); self.bound.push(binders_of(&l.pat)); self.visit_block(&i.then_branch); self.bound.pop(); }
+        else { self.visit_expr(&i.cond); self.visit_block(&i.then_branch); }
+        if let Some((_, e)) = &i.else_branch { self.visit_expr(e); }
+    }
+    fn visit_expr_while(&mut self, w: &'a syn::ExprWhile) {
+        if let Expr::Let(l) = &*w.cond { self.visit_expr(&l.expr); self.bound.push(binders_of(&l.pat)); self.visit_block(&w.body); self.bound.pop(); }
+        else { self.visit_expr(&w.cond); self.visit_block(&w.body); }
+    }
+    fn visit_expr_for_loop(&mut self, f: &'a syn::ExprForLoop) { self.visit_expr(&f.expr); self.bound.push(binders_of(&f.pat)); self.visit_block(&f.body); self.bound.pop(); }
+}
+pub fn captures_of_closure(c: &syn::ExprClosure, scope: &BTreeSet<String>) -> Vec<String> {
+    let mut fv = Free { bound: vec![], free: vec![] }; fv.visit_expr_closure(c);
+    fv.free.into_iter().filter(|n| scope.contains(n) || n == "self").collect()
+}
+pub fn captures_of_block(b: &syn::Block, scope: &BTreeSet<String>) -> Vec<String> {
+    let mut fv = Free { bound: vec![], free: vec![] }; fv.visit_block(b);
+    fv.free.into_iter().filter(|n| scope.contains(n) || n == "self").collect()
+}
 
 // ------------------------------------------------------------------------------------------
 // vacuity probes (DESIGN §6 step 4): `__hx_probe(id);` at function entry, at the start of every
